@@ -125,12 +125,12 @@ func runTransform(in M) M {
 				fault = true
 			}
 		}()
-		transform(lto, hto, lfrom, hfrom)
+		vTransform(lto, hto, lfrom, hfrom)
 	})
 	// the portable reference on ordinary memory
 	var fl, fh [StateSize]uint
 	fl, fh = keepL, keepH
-	transformGeneric(&gl, &gh, &fl, &fh)
+	vTransformGeneric(&gl, &gh, &fl, &fh)
 	outcells := make([][]int, len(audit))
 	for k, ln := range audit {
 		outcells[k] = laneCells(lto, hto, uint(ln))
@@ -164,7 +164,7 @@ func stateFP(c *Curl) [32]byte {
 		}
 		hs.Write(b[:])
 	}
-	hs.Write([]byte{byte(c.direction)})
+	hs.Write([]byte{byte(vDirOf(c))})
 	var r [32]byte
 	copy(r[:], hs.Sum(nil))
 	return r
@@ -180,12 +180,14 @@ func fpTrits(t trinary.Trits) []int {
 }
 
 func isFresh(c *Curl) bool {
+	var l, h [StateSize]uint
+	c.CopyState(l[:], h[:])
 	for i := 0; i < StateSize; i++ {
-		if c.l[i] != ^uint(0) || c.h[i] != ^uint(0) {
+		if l[i] != ^uint(0) || h[i] != ^uint(0) {
 			return false
 		}
 	}
-	return c.direction == SpongeAbsorbing
+	return vDirOf(c) == 0
 }
 
 func errName(err error) string {
@@ -339,6 +341,11 @@ func bytesOf(t trinary.Trits) []byte {
 	return b
 }
 
+// White-box access (wb_test.go sets these from init): the package-level permutations and the sponge direction.  Without
+// them the transform leg is skipped and the direction is left out of state fingerprints.
+var vTransform, vTransformGeneric func(lto, hto, lfrom, hfrom *[StateSize]uint)
+var vDirOf = func(c *Curl) int { return 0 }
+
 func vRun(op string, in M) M {
 	if op == "curl.transform" {
 		return runTransform(in)
@@ -484,7 +491,7 @@ func TestVerifDriver(t *testing.T) {
 		}
 		if os.Getenv("VERIF_FOCUS") == "sponge" {
 			genSponge(do)
-		} else {
+		} else if vTransform != nil {
 			genTransform(do)
 		}
 		return
